@@ -174,11 +174,7 @@ def features(tr: dict) -> dict:
     needed = set(begin["F"]) if begin and begin["F"] != ["*"] else walk_needed
     defaults = {p: {f["name"] for f in tdesc["funcs"] if p in {q for q, _ in f["defaults"]}} for p in roots}
     filled = {p for p in walk_roots if p not in I and defaults.get(p)}
-    return {"route": tr["route"], "must": tr["must"],
-            "cut": "root-only" if set(I) <= roots else "interior-only" if not (set(I) & roots) else "mixed",
-            "nothing_provided": not I,
-            "tuple_output": any(len(f["outputs"]) > 1 for f in tdesc["funcs"]),
-            "mapped": any(f["has_ms"] for f in tdesc["funcs"]),
+    return {"route": tr["route"], "must": tr["must"], "mapped": any(f["has_ms"] for f in tdesc["funcs"]),
             # the unrepaired selection descendants(I) & ancestors(S) is a different set of functions (F10)
             "forward_selection_differs": forward_selection(tdesc, tr["S"], I) != needed,
             # a root argument of the cut that is not provided gets its value from a default (F60) ...
